@@ -160,6 +160,11 @@ func trustedResourceURLFormat(format string, args map[string]string) (TrustedRes
 		// each other or with adjacent '.' runes in the format string.
 		err = fmt.Errorf(`arguments must not introduce ".." into the format string %q`, format)
 	}
+	if err == nil && safehtmlutil.URLDoubleDotPathSegmentCount(ret) > safehtmlutil.URLDoubleDotPathSegmentCount(trustedResourceURLFormatMarkerPattern.ReplaceAllString(format, "\x00")) {
+		// An empty argument next to dots of the format string leaves a ".." path segment
+		// behind, as in "/a/%{x}../b".
+		err = fmt.Errorf(`arguments must not turn part of the format string %q into a ".." path segment`, format)
+	}
 	if err == nil && strings.HasPrefix(format, "/") && !strings.HasPrefix(format, "//") && (strings.HasPrefix(ret, "//") || strings.HasPrefix(ret, `/\`)) {
 		// An empty argument directly after the leading '/' would turn the
 		// path-absolute URL into a scheme-relative one, i.e. change the host.
